@@ -141,10 +141,15 @@ def demo_params(draw, model, g, allow_cutoff=True):
 
 
 @st.composite
-def case(draw, models=MODELS, nmax=50):
+def case(draw, models=MODELS, nmax=50, nmin=2, extreme=False):
     model = draw(st.sampled_from(list(models)))
-    g = draw(genealogy(3 if model == "skyride" else 2, nmax))
+    g = draw(genealogy(max(nmin, 3 if model == "skyride" else 2), nmax))
     p = draw(demo_params(model, g))
+    if extreme:
+        # population sizes far from the time scale of the tree (valid, numerically extreme): products of many of
+        # them leave the floating-point range although every logarithm is ordinary
+        sc = draw(logu(1e-12, 1e12))
+        p["theta"] = [x * sc for x in p["theta"]]
     n = len(g["s"])
     route = draw(st.sampled_from(["times", "times", "tree"]))
     c = {"g": g, "p": p, "route": route, "perm_s": list(draw(st.permutations(list(range(n))))), "perm_c": list(draw(st.permutations(list(range(n - 1)))))}
@@ -155,6 +160,9 @@ def case(draw, models=MODELS, nmax=50):
     c["batch"] = draw(st.sampled_from([0, 0, 0, 2, 3]))
     if c["batch"]:
         c["scales"] = [draw(logu(0.2, 5.0)) for _ in range(c["batch"])]
+    else:
+        # several genealogies with the same sampling times evaluated in one call (node heights [B, 2n-1])
+        c["hbatch"] = [draw(logu(0.3, 3.0)) for _ in range(draw(st.sampled_from([0, 0, 1, 2, 3])))]
     return c
 
 
@@ -349,7 +357,77 @@ def body(c):
         lp = arr(model.distribution().log_prob(nh)).reshape(-1)
         if lp.size != 1 or abs(float(lp[0]) - v) > 1e-12 * max(1.0, abs(v)):
             return res.fail("call_vs_log_prob", {"call": v, "log_prob": lp.tolist()})
+        if c.get("hbatch"):
+            batched_heights(res, c, g, p, model, nh, v)
     return res
+
+
+def stretched(g, f):
+    """the genealogy with every waiting increment multiplied by f (same construction as `genealogy`)"""
+    ss = sorted(g["s"])
+    out, prev, prev0 = [], 0.0, 0.0
+    for j, t in enumerate(g["c"], start=1):
+        inc = t - max(prev0, ss[j])
+        prev0 = t
+        prev = max(prev, ss[j]) + inc * f
+        out.append(prev)
+    return out
+
+
+def batched_heights(res, c, g, p, model, nh, v0):
+    """log_prob at node heights [B, 2n-1]: row 0 is the case's own genealogy, the others stretch its waiting times;
+    every row equals its own Kingman density"""
+    n = len(g["s"])
+    base = arr(nh).reshape(-1)
+    where = {}
+    for pos, x in enumerate(base):
+        for j, t in enumerate(g["c"]):
+            if x == t:
+                where[pos] = j
+    if len(where) != n - 1:
+        raise AssertionError("harness: cannot locate the coalescent times among the node heights")
+    grid = grid_of(p)
+    sep = 1e-6 * max(1.0, max(g["c"]))
+    rows, refs = [base], [(v0, 0.0)]
+    for f in c["hbatch"]:
+        cc = stretched(g, f)
+        if any(abs(x - t) <= sep for x in grid for t in cc) or any(t in g["s"] for t in cc) or min(np.diff([0.0] + cc)) <= 0:
+            continue
+        pp = p
+        if p["model"] == "exponential" and abs(p["growth"][0]) * max(cc) > 30.0:
+            continue
+        row = base.copy()
+        for pos, j in where.items():
+            row[pos] = cc[j]
+        rows.append(row)
+        refs.append(reference({"s": g["s"], "c": cc}, pp))
+    if len(rows) < 2:
+        res.labels = res.labels + ("hbatch_rows_dropped",)
+        return
+    order = list(range(len(rows)))
+    order = order[1:] + order[:1] if len(c["hbatch"]) % 2 else order
+    H = torch.tensor(np.array([rows[i] for i in order]))
+    got, exc = guarded(lambda: model.distribution().log_prob(H))
+    if exc is not None:
+        # unbatched parameters next to batched heights may be an unsupported combination (it raises): give every
+        # parameter the same leading dimension, as a sampler does
+        for name in ("theta", "growth"):
+            par = getattr(model, name, None)
+            if par is not None:
+                par.tensor = par.tensor.expand((len(rows),) + tuple(par.tensor.shape)).clone()
+        got, exc = guarded(lambda: model.distribution().log_prob(H))
+        res.labels = res.labels + ("hbatch_parameters_expanded",)
+    if exc is not None:
+        res.labels = res.labels + ("hbatch_raises",)
+        return
+    got = arr(got).reshape(-1)
+    res.labels = res.labels + ("hbatch=%d" % len(rows),)
+    if got.shape != (len(rows),) or not np.isfinite(got).all():
+        return res.fail("nonfinite", {"what": "batched node heights", "value": got.tolist(), "reference": [refs[i][0] for i in order]}, hbatch=True)
+    for k, i in enumerate(order):
+        r, e = refs[i]
+        if abs(got[k] - r) > tol_for(r, e) + (1e-12 * max(1.0, abs(r)) if i == 0 else 0.0):
+            return res.fail("mismatch", {"what": "batched node heights", "row": k, "value": float(got[k]), "reference": r, "tol": tol_for(r, e), "rows": len(rows)}, hbatch=True)
 
 
 # ------------------------------------------------------------------ metamorphic relations
@@ -460,6 +538,8 @@ def pretags(c):
 def subchecks(tier):
     return [
         Sub("absolute", body, strategy=case, quick=1200, thorough=80000, pretags=pretags),
+        Sub("extreme_sizes", body, strategy=lambda: case(models=["constant", "skyride", "skyride", "skygrid", "linear", "exponential"], nmin=30, nmax=120, extreme=True),
+            quick=150, thorough=6000, pretags=pretags),
         Sub("all_equal", equal_body, strategy=equal_case, quick=200, thorough=12000, pretags=pretags),
         Sub("scaling", scale_body, strategy=scale_case, quick=300, thorough=15000, pretags=pretags),
         Sub("pexp_evaluates", pexp_body, strategy=pexp_case, quick=20, thorough=100, pretags=pretags),
